@@ -18,6 +18,10 @@ T0 = pd.Timestamp('2020-03-02 15:00:00', tz='UTC')
 
 
 def alphabet(tier):
+    if tier == 'rebate':
+        # negative commissions (liquidity rebates) are commissions too
+        evs = [('fill', q, p_, c) for q in (2, -2, 5, -5) for p_ in ('10', '12.5') for c in ('-0.4', '0.3')]
+        return evs + [('mark', '11')]
     if tier == 'large':
         # large sizes with a residual of a few units (relative 5e-6): no tolerance may treat them as flat
         evs = [('fill', q, p, c) for q in (1000000, -1000000, 999995, -999995, 5, -5) for p in ('10', '12.5')
@@ -207,6 +211,11 @@ def subtree_position(args):
 # seam 2: Portfolio.transact_asset / portfolio_to_dict (positions discarded at zero, re-opened)
 # ------------------------------------------------------------------------------------------
 def pf_alphabet(tier):
+    if tier == 'large':
+        # lots of a million with residuals of a few units, and tiny lots next to them
+        evs = [('fill', 'A', q, p_, c) for q in (1000000, -1000000, 999995, -999995, 5, -5, 1, -1)
+               for p_, c in (('10', '0'), ('12.5', '1.25'))]
+        return evs + [('mark', 'A', '11')]
     evs = []
     for q in (2, -2, 3, -3, 5, -5):
         for p, c in (('10', '0'), ('12.5', '1.25'), ('9.75', '1.25')):
@@ -338,6 +347,16 @@ def run(tier, res, is_known):
     levs = alphabet('large')
     litems = [('large', (), 0)] + [('large', (pre,), 2 if tier == 'quick' else 3) for pre in levs]
     product(subtree_position, litems, res, is_known, label='position tree, large magnitudes', chunk=1, sample_every=7)
+    if any(not is_known(v) for v in res.violations):
+        return
+    revs = alphabet('rebate')
+    ritems = [('rebate', (), 0)] + [('rebate', (pre,), 3) for pre in revs]
+    product(subtree_position, ritems, res, is_known, label='position tree, negative commissions', chunk=1, sample_every=7)
+    if any(not is_known(v) for v in res.violations):
+        return
+    lpevs = pf_alphabet('large')
+    lpitems = [('large', (), 0)] + [('large', (pre,), 2) for pre in lpevs]
+    product(subtree_portfolio, lpitems, res, is_known, label='portfolio tree, large lots', chunk=1, sample_every=7)
     if any(not is_known(v) for v in res.violations):
         return
     pevs = pf_alphabet(tier)
